@@ -142,11 +142,13 @@ class InducingPointKernel(Kernel):
         cp.training = self.training
         cp.inducing_points.requires_grad_(self.inducing_points.requires_grad)
 
+        # The copy gets the values of the evaluation-mode caches, not their autograd graph: the graph leads to the
+        # parameters of the kernel being copied, which a backward pass through the copy must not reach
         if replace_inv_root:
-            cp._cached_kernel_inv_root = kernel_inv_root
+            cp._cached_kernel_inv_root = kernel_inv_root.detach()
 
         if replace_kernel_mat:
-            cp._cached_kernel_mat = kernel_mat
+            cp._cached_kernel_mat = kernel_mat.detach()
 
         return cp
 
